@@ -225,6 +225,9 @@ class Rng:
     def chance(self, num, den):
         return self.below(den) < num
 
+    def bytes(self, n):
+        return bytes(self.below(256) for _ in range(n))
+
     def shuffle(self, l):
         for i in range(len(l) - 1, 0, -1):
             j = self.below(i + 1)
